@@ -38,7 +38,22 @@ P3 = {   # shadowing: a parameter named like a declaration; a @reference
     ],
     "nonident": [],
 }
-PROGRAMS = {"single-module": P1, "two-modules": P2, "shadowing-and-reference": P3}
+P4 = {   # two sibling modules of the same shape: their declarations sit at the same arena indices
+    "files": {"main.oal": 'use "b.oal" as b;\nuse "c.oal" as c;\nlet user = { \'id b.id, \'name b.name };\nlet file = { \'id c.id, \'size c.size };\nres /u on get -> <user>;\nres /f on get -> <file>;\n',
+              "b.oal": "let id = num;\nlet name = str;\n", "c.oal": "let id = str;\nlet size = int;\n"},
+    "occ": [
+        ("main.oal", 0, 15, "b", "qdecl", "qb"), ("main.oal", 1, 15, "c", "qdecl", "qc"),
+        ("main.oal", 2, 4, "user", "decl", "user"), ("main.oal", 2, 17, "b", "quse", "qb"), ("main.oal", 2, 19, "id", "use", "b.id"),
+        ("main.oal", 2, 29, "b", "quse", "qb"), ("main.oal", 2, 31, "name", "use", "b.name"),
+        ("main.oal", 3, 4, "file", "decl", "file"), ("main.oal", 3, 17, "c", "quse", "qc"), ("main.oal", 3, 19, "id", "use", "c.id"),
+        ("main.oal", 3, 29, "c", "quse", "qc"), ("main.oal", 3, 31, "size", "use", "c.size"),
+        ("main.oal", 4, 18, "user", "use", "user"), ("main.oal", 5, 18, "file", "use", "file"),
+        ("b.oal", 0, 4, "id", "decl", "b.id"), ("b.oal", 1, 4, "name", "decl", "b.name"),
+        ("c.oal", 0, 4, "id", "decl", "c.id"), ("c.oal", 1, 4, "size", "decl", "c.size"),
+    ],
+    "nonident": [("main.oal", 2, 13)],
+}
+PROGRAMS = {"single-module": P1, "two-modules": P2, "shadowing-and-reference": P3, "sibling-modules-same-shape": P4}
 
 
 def pos(l, c):
